@@ -940,6 +940,7 @@ class Interp:
         if k == 1:
             raise PyRaise(VExc("GeneratorExit", tag={"at": self.site(node)}))
         if k >= 2:
+            st.trace.append(Event("yield.throw", {"cls": throws[k - 2]}, self.site(node)))
             raise PyRaise(VExc(throws[k - 2], tag={"at": self.site(node), "thrown_at_yield": True}))
         return NONE
 
